@@ -292,7 +292,8 @@ def norm_mline(r, cfg):
                 "hdrs": [norm_hdr(h) for h in x.get("hdrs", [])], "pid": poll_id(x)} for x in r.get("tx", [])]
     e["ltx"] = [{"t": x["t"], "fn": x["fn"], "dst": x["dst"]} for x in r.get("ltx", [])]
     e["cb"] = [norm_mcb(c) for c in r.get("cb", [])]
-    e["done"] = [{"t": d[0], "id": d[1] if isinstance(d[1], int) else -1, "res": s(d[2])} for d in r.get("done", [])]
+    e["done"] = [{"t": d[0], "id": d[1] if isinstance(d[1], int) else -1,
+                  "res": "BadOutstationTimeDelay" if s(d[2]).startswith("BadOutstationTimeDelay") else s(d[2])} for d in r.get("done", [])]
     e["panic"] = "panic" in r
     e["ended"] = bool(r.get("ended"))
     e["sess"] = [x[1].split(":")[0] for x in r.get("sess", [])]
